@@ -72,7 +72,10 @@ class LowerRoll(Contract):
 
     def instances(self, tier):
         return [dict(label=f"rank={r},axis={ax}", rank=r, axis=ax)
-                for r in ranks(tier) for ax in range(r)]
+                for r in ranks(tier) for ax in range(r)] + [
+            # axis=None: NumPy rolls the flattened array
+            dict(label=f"rank={r},axis=None", rank=r, axis=None)
+            for r in (0, 1, 2, 3)]
 
     def canaries(self, tier):
         return [(dict(label="rank=2,axis=1", rank=2, axis=1), "wrong-sign",
@@ -84,6 +87,8 @@ class LowerRoll(Contract):
         r, ax = inst["rank"], inst["axis"]
         a = mk_placeholder(h, "a", r)
         shift = h.int("shift")
+        if ax is None:
+            return self.run_flat(h, a, shift, r)
         node = h.call(pt.roll, a, shift, ax)
         if not isinstance(node, Roll):
             # a shortcut (e.g. shift == 0 returns the operand): it must
@@ -115,6 +120,57 @@ class LowerRoll(Contract):
             return A(arrays, a, idx)
 
         check_index_lambda(h, il, node, spec, arrays,
+                           clause_prefix="lower.roll")
+
+    def run_flat(self, h, a, shift, r):
+        """roll(a, shift) without an axis: whatever is returned (pytato
+        declines rank > 1 with NotImplementedError) must be NumPy's roll of
+        the flattened array, reshaped back."""
+        try:
+            node = h.call(pt.roll, a, shift)
+        except EngineSignal:
+            raise
+        except NotImplementedError:
+            h.oblige("lower.roll.flat.declined-explicitly", z3.BoolVal(True),
+                     props=("C02", "C01"))
+            return
+        ns = [shape_term(a.shape[d]) for d in range(r)]
+        strides = []
+        for d in range(r):
+            st = z3.IntVal(1)
+            for e in ns[d + 1:]:
+                st = st * e
+            strides.append(st)
+        size = z3.IntVal(1)
+        for e in ns:
+            size = size * e
+        sh = z_of(shift)
+
+        def src(iv):
+            flat = z3.IntVal(0)
+            for d in range(r):
+                flat = flat + iv[d] * strides[d]
+            g = py_mod(flat - sh, size)
+            return [py_mod(py_floordiv(g, strides[d]), ns[d]) for d in range(r)]
+        if not isinstance(node, Roll):
+            h.oblige("lower.roll.shortcut-returns-the-operand",
+                     z3.BoolVal(node is a), props=("C02", "C01"))
+            iv = [z3.Int(f"i{d}") for d in range(r)]
+            box = z3.And([z3.And(iv[d] >= 0, iv[d] < ns[d])
+                          for d in range(r)] + [z3.BoolVal(True)])
+            h.oblige("lower.roll.shortcut-is-the-identity-roll",
+                     z3.Implies(box, z3.And([s_ == i_ for s_, i_ in
+                                             zip(src(iv), iv)]
+                                            + [z3.BoolVal(True)])),
+                     props=("C02", "C01"))
+            return
+        node = decorate(node)
+        arrays = ArrayModel()
+        il = lower(h, node, "lower.roll")
+        if il is None:
+            return
+        check_index_lambda(h, il, node,
+                           lambda iv: A(arrays, a, src(iv)), arrays,
                            clause_prefix="lower.roll")
 
     def replay(self, inst, clause, model, info):
